@@ -20,7 +20,7 @@ ASSUMPTIONS = [
     "thewalrus.perm stubbed by a definitional permanent",
 ]
 BOUNDS = {
-    "quick": "U1: SLOS on an arbitrary symbolic 2x2/3x3 matrix, all inputs <=3 photons; U2: both backends on symbolic bs/ps/loss circuits with <=2 real + <=2 loss modes, <=2 photons, every threshold path; U3: pdist_calc with arbitrary symbolic sub-distributions for 1-2 source inputs; U4: Sampler end to end on the U2 shapes plus a heralded circuit",
+    "quick": "(plus univariate shapes - rational beam splitters, one symbolic loss - with 3 photons) U1: SLOS on an arbitrary symbolic 2x2/3x3 matrix, all inputs <=3 photons; U2: both backends on symbolic bs/ps/loss circuits with <=2 real + <=2 loss modes, <=2 photons, every threshold path; U3: pdist_calc with arbitrary symbolic sub-distributions for 1-2 source inputs; U4: Sampler end to end on the U2 shapes plus a heralded circuit",
     "thorough": "U1 up to 4x4 / 3 photons; U2 with 3 real modes and 3 photons on the lossless shapes",
 }
 OUTSIDE = "float rounding; photon numbers above the bound; the clifford backend (not implemented)"
@@ -58,7 +58,13 @@ SHAPES = {
     "bsloss": (2, [("bsl", 0, 1)]),
     "tri": (3, [("bs", 0, 1, "Rx"), ("bs", 1, 2, "H")]),
     "tri-loss": (3, [("bs", 0, 1, "Rx"), ("loss", 1), ("bs", 1, 2, "Rx")]),
+    # one symbolic variable only (rational beam splitters): the threshold comparisons are
+    # univariate, so three photons stay cheap - several photons lost at the same element
+    "loss1": (2, [("loss", 0)]),
+    "bsq-loss": (2, [("bsq", 0, 1, "Rx", (1, 3)), ("loss", 0)]),
+    "loss-bsq-loss": (2, [("loss", 1), ("bsq", 0, 1, "H", (2, 5)), ("lossq", 0, (1, 4))]),
 }
+UNIVARIATE = ("loss1", "bsq-loss", "loss-bsq-loss")
 
 
 def _build(ctx, shape):
@@ -72,6 +78,10 @@ def _build(ctx, shape):
             lam = ctx.real(f"l{i}", 0, 1)
             ctx.assume(lam > 0)
             c.bs(cp[1], cp[2], reflectivity=ctx.real(f"r{i}", 0, 1), loss=lam)
+        elif cp[0] == "bsq":
+            c.bs(cp[1], cp[2], reflectivity=ctx.m.frac(*cp[4]), convention=cp[3])
+        elif cp[0] == "lossq":
+            c.loss(cp[1], ctx.m.frac(*cp[2]))
         elif cp[0] == "ps":
             c.ps(cp[1], ctx.angle(f"p{i}"))
         else:
@@ -285,7 +295,7 @@ def h_pdist_calc(ctx, n_inputs, lossy, with_vac, normalised):
 
 
 def _n_loss(shape):
-    return sum(1 for c in SHAPES[shape][1] if c[0] == "loss") + 2 * sum(1 for c in SHAPES[shape][1] if c[0] == "bsl")
+    return sum(1 for c in SHAPES[shape][1] if c[0] in ("loss", "lossq")) + 2 * sum(1 for c in SHAPES[shape][1] if c[0] == "bsl")
 
 
 def _space(n, k):
@@ -299,15 +309,15 @@ def harnesses(tier):
     u2 = []
     for shape, (n, comps) in SHAPES.items():
         for k in (0, 1, 2, 3):
-            if _space(n + _n_loss(shape), k) > cap:
+            if _space(n + _n_loss(shape), k) > (cap if shape not in UNIVARIATE else 20):
                 continue
             for inp in ref.fock_states(n, k):
                 u2.append(dict(shape=shape, k=k, inp=tuple(inp)))
     u4 = []
-    for shape in ("bs", "bs-loss", "loss-bs-loss", "bsloss", "tri-loss", "tri"):
+    for shape in ("bs", "bs-loss", "loss-bs-loss", "bsloss", "tri-loss", "tri", "loss1", "bsq-loss"):
         n = SHAPES[shape][0]
-        for k in (0, 1, 2):
-            if _space(n + _n_loss(shape), k) > cap:
+        for k in (0, 1, 2, 3):
+            if _space(n + _n_loss(shape), k) > (cap if shape not in UNIVARIATE else 10):
                 continue
             for inp in ref.fock_states(n, k):
                 u4.append(dict(shape=shape, k=k, herald=None, inp=tuple(inp)))
